@@ -76,6 +76,18 @@ Theorem C11_distinct_sets_distinct_keys : forall fields uselen t t' f x,
 Proof. exact build_distinct_sets_distinct_keys. Qed.
 Print Assumptions C11_distinct_sets_distinct_keys.
 
+(* … and the same for the root.-prefixed fields: with both root spans carrying every root field
+   and values free of ',', equal keys force equal root values *)
+Theorem C11_key_separates_root : forall fields uselen uselen' t t' rs rs',
+  let nf := fst (prepare fields) in let rf := snd (prepare fields) in
+  (total_distinct nf t < MAXK)%N -> (total_distinct nf t' < MAXK)%N ->
+  all_present nf t -> all_present nf t' -> all_dfree nf t -> all_dfree nf t' ->
+  t_root t = Some rs -> t_root t' = Some rs' -> root_ok rf rs -> root_ok rf rs' ->
+  fst (build fields uselen t) = fst (build fields uselen' t') ->
+  forall f, In f rf -> option_map render_root (sp_get f rs) = option_map render_root (sp_get f rs').
+Proof. exact build_separates_root_fixed. Qed.
+Print Assumptions C11_key_separates_root.
+
 (* The pinned tree started the de-dup with prevStr = "": value sets {"", "a"} and {"a"} collide.
    (Finding C11-empty-string-swallowed; fixed in the repository, the fixed builder separates them.) *)
 Theorem C11_legacy_prevstr_refuted :
